@@ -383,6 +383,10 @@ func onPathMarking(c *an.Ctx, det *ssa.Function, rule string) {
 	var adj []string
 	for _, l := range an.Loops(det) {
 		if op := l.RangeOperand(); op != nil {
+			if fld, ok := an.Resolve(op).(*ssa.Field); ok {
+				// the list is one field of a struct-valued map entry: m[k].f
+				op = fld.X
+			}
 			if lk, ok := an.Resolve(op).(*ssa.Lookup); ok {
 				op = lk.X
 			}
